@@ -374,6 +374,9 @@ func (sc *SpecCtx) binary(x *SX) Val {
 		_, aSlice := vc.under(orNil(a.Ty)).(*types.Slice)
 		_, bSlice := vc.under(orNil(b.Ty)).(*types.Slice)
 		switch {
+		case a.Loc != nil && b.Ty == types.Typ[types.UntypedNil], b.Loc != nil && a.Ty == types.Typ[types.UntypedNil]:
+			// the address of a field or element is never nil
+			t = tFalse
 		case aSlice && b.Ty == types.Typ[types.UntypedNil]:
 			t = eq(sArr(a.T), intLit(0))
 		case bSlice && a.Ty == types.Typ[types.UntypedNil]:
@@ -735,6 +738,10 @@ func (sc *SpecCtx) call(x *SX) Val {
 	case "bytesEqual", "bytes.Equal":
 		need(2)
 		return sc.bytesEqual(sc.eval(args[0]), sc.eval(args[1]))
+	case "pow2":
+		need(1)
+		a := sc.eval(args[0])
+		return Val{Ty: specInt, T: vc.pow2Term(vc.toInt(a))}
 	case "hasType", "unboxed":
 		// hasType(x, T): interface value x is non-nil with dynamic type T;
 		// unboxed(x, T): the T value it holds
